@@ -1867,3 +1867,130 @@ func c20r13(c *Ctx, r *Report) {
 	}
 	r.floor("goroutines receiving from Terminal.killChan", len(fns), 1)
 }
+
+// c16r11: a non-local listener without --listen-unsafe drops the actions for which processExecution() is true:
+// the ones that run a command. The list has to cover every action whose handler reaches the executor (D38:
+// seven newer transform-* actions, which run their argument through captureLine, were missing: a remote
+// client holding the API key could run arbitrary commands although --listen-unsafe was not given).
+func c16r11(c *Ctx, r *Report) {
+	l := c.L
+	r.rule("C16-R11", "E (census: handlers that reach the executor vs. the filter's case list)", "P1",
+		"every action type under whose case the action interpreter (a closure of Terminal.Loop) calls a function that reaches Executor.ExecCommand or Executor.Become through static calls is a case of processExecution",
+		"an action that executes a shell command passes the filter of a non-local listener: remote command execution without --listen-unsafe")
+	pe := l.Fn("fzf", "processExecution")
+	loop := l.Fn("fzf", "(*Terminal).Loop")
+	if pe == nil || loop == nil {
+		r.unest("anchors", token.NoPos, nil, "anchors processExecution / Terminal.Loop", "cannot resolve")
+		return
+	}
+	// functions reaching the executor
+	reach := map[*ssa.Function]bool{}
+	for _, f := range l.AllFuncs() {
+		switch relName(f) {
+		case "(*fzf/util.Executor).ExecCommand", "(*fzf/util.Executor).Become":
+			reach[f] = true
+		}
+	}
+	if len(reach) == 0 {
+		r.unest("anchors", token.NoPos, nil, "anchors Executor.ExecCommand / Executor.Become", "cannot resolve")
+		return
+	}
+	for changed := true; changed; {
+		changed = false
+		for _, f := range l.AllFuncs() {
+			if reach[f] || f.Blocks == nil || f.Pkg != l.pkg("fzf") || rootFn(f) == loop {
+				continue
+			}
+			eachInstr(f, func(in ssa.Instruction) {
+				if g := staticCallee(in); g != nil && reach[g] && !reach[f] {
+					reach[f] = true
+					changed = true
+				}
+			})
+		}
+	}
+	// the filter's list
+	listed := map[int64]bool{}
+	pcPE := pathConds(pe)
+	eachInstr(pe, func(in ssa.Instruction) {
+		ret, ok := in.(*ssa.Return)
+		if !ok || len(ret.Results) != 1 {
+			return
+		}
+		if k, ok := ret.Results[0].(*ssa.Const); !ok || k.Value == nil || k.Value.String() != "true" {
+			return
+		}
+		if ks, ok := eqConstLits(pcPE, in.Block()); ok {
+			for k := range ks {
+				listed[k] = true
+			}
+		}
+	})
+	actName := func(k int64) string {
+		sc := l.pkg("fzf").Pkg.Scope()
+		for _, nm := range sc.Names() {
+			if !strings.HasPrefix(nm, "act") {
+				continue
+			}
+			if cst, ok := sc.Lookup(nm).(*types.Const); ok {
+				if n, ok := cst.Type().(*types.Named); ok && n.Obj().Name() == "actionType" {
+					if v, ok := constInt(cst); ok && v == k {
+						return nm
+					}
+				}
+			}
+		}
+		return fmt.Sprintf("action %d", k)
+	}
+	execs := map[int64]token.Pos{}
+	via := map[int64]string{}
+	for _, f := range withClosures(loop) {
+		var pc *PathConds
+		eachInstr(f, func(in ssa.Instruction) {
+			g := staticCallee(in)
+			if g == nil || !reach[g] {
+				return
+			}
+			if pc == nil {
+				pc = pathConds(f)
+			}
+			for _, dj := range pc.At(in.Block()) {
+				// the action type this disjunct stands for; a disjunct that requires two different types (the case
+				// label of a shared body AND the inner test for its sibling) is infeasible
+				pos := map[int64]bool{}
+				for _, lt := range dj {
+					bo, ok := lt.Atom.(*ssa.BinOp)
+					if !ok || !(bo.Op == token.EQL && lt.Val || bo.Op == token.NEQ && !lt.Val) {
+						continue
+					}
+					fld, _ := loadedField(bo.X)
+					if fld == nil || fld.Name() != "t" {
+						continue
+					}
+					if k, isK := constIntVal(bo.Y); isK {
+						pos[k] = true
+					}
+				}
+				if len(pos) != 1 {
+					continue
+				}
+				for k := range pos {
+					if _, seen := execs[k]; !seen {
+						execs[k] = in.Pos()
+						via[k] = g.Name()
+					}
+				}
+			}
+		})
+	}
+	var ks []int64
+	for k := range execs {
+		ks = append(ks, k)
+	}
+	sort.Slice(ks, func(i, j int) bool { return ks[i] < ks[j] })
+	for _, k := range ks {
+		r.check(listed[k], fmt.Sprintf("%s:%s runs a command and is filtered", relName(pe), actName(k)), execs[k], loop,
+			"processExecution lists it", fmt.Sprintf("its handler calls %s, which reaches the executor, but processExecution does not list it: a non-local listener accepts it without --listen-unsafe", via[k]))
+	}
+	r.floor("action types whose handler reaches the executor", len(ks), 15)
+}
